@@ -1,0 +1,36 @@
+//go:build verif
+
+package transport
+
+import (
+	"context"
+
+	"github.com/IrineSistiana/connpool"
+)
+
+// Verification hook for property C18 (add-only, compiled with -tags verif only).
+
+// VerifC18PresetQid makes every connection that t dials from now on start with nextQid = q0, so that
+// a check can bring a connection of an upstream built by NewUpstream to its end of life (all 65536
+// wire ids handed out) with a query still in flight, and then close the upstream. It must be called
+// before the first exchange: the (unused) pool made by NewPipelineTransport is replaced by one whose
+// dial function is the same except for the preset.
+func (t *PipelineTransport) VerifC18PresetQid(q0 int) {
+	opts := t.opts
+	t.pool = connpool.NewPool(connpool.Opts{
+		Dial: func(ctx context.Context) (connpool.Conn, error) {
+			ctx, cancel := context.WithTimeout(ctx, t.dialTimeout())
+			defer cancel()
+			c, err := opts.DialContext(ctx)
+			if err != nil {
+				return nil, err
+			}
+			pc := newPipelineConn(c, t)
+			pc.m.Lock()
+			pc.nextQid = q0
+			pc.m.Unlock()
+			return pc, nil
+		},
+		MaxStream: t.maxConcurrentQuery(),
+	})
+}
